@@ -943,9 +943,9 @@ fn main() {
         cfg.tier = "quick".into();
     }
     if cfg.worlds == 0 {
-        cfg.worlds = if cfg.tier == "thorough" { env_or("SIM_THOROUGH_WORLDS", "40000").parse().unwrap_or(40000) } else { 320 };
+        cfg.worlds = if cfg.tier == "thorough" { env_or("SIM_THOROUGH_WORLDS", "40000").parse().unwrap_or(40000) } else { 1500 };
     }
-    cfg.wall_cap_s = if cfg.tier == "thorough" { env_or("SIM_WALL_CAP_S", "900").parse().unwrap_or(900) } else { 90 };
+    cfg.wall_cap_s = if cfg.tier == "thorough" { env_or("SIM_WALL_CAP_S", "900").parse().unwrap_or(900) } else { 150 };
     if cfg.tier == "thorough" && !args.iter().any(|a| a == "--no-rustc-tier") {
         cfg.rustc_tier = true;
     }
